@@ -182,7 +182,7 @@ def _with_prefs(c):
 def fresh_battery(variant=0):
     """the battery in a fresh interpreter (same tree): the reference"""
     code = 'import sys, json; sys.path.insert(0, %r); from engine import core; from checks import c12; c, _ = core.import_repo(); print("BATTERY" + json.dumps(c12.battery(c, %d)))' % (os.path.dirname(os.path.dirname(os.path.abspath(__file__))), variant)
-    r = subprocess.run([sys.executable, '-B', '-c', code], capture_output=True, text=True, timeout=120, env=dict(os.environ))
+    r = subprocess.run([sys.executable, '-B', '-c', code], capture_output=True, text=True, timeout=900, env=dict(os.environ))
     for line in r.stdout.splitlines():
         if line.startswith('BATTERY'):
             return json.loads(line[7:])
